@@ -1,5 +1,7 @@
 (* The parser with semantic hooks (Parser.expect calls ProcessStart, ProcessedElement after every element,
-   ProcessEnd), generic in the hook functions and in the state they act on.  Tokens are abstract values with a kind. *)
+   ProcessEnd), generic in the hook functions and in the state they act on.  Tokens are abstract values with a kind.
+   A hook returns the new state and whether it succeeded; every outcome carries the state reached, because a hook
+   that fails has still been called (its closure has seen the token). *)
 From Coq Require Import List NArith Bool Arith.
 Import ListNotations.
 From BWGrammar Require Import Grammar.
@@ -7,8 +9,8 @@ Open Scope N_scope.
 
 Inductive hres (Tok St : Type) :=
 | HOk (rest : list Tok) (st : St)
-| HReject            (* syntax error: the plain parser rejects as well *)
-| HHookErr           (* a hook returned an error *)
+| HReject (st : St)          (* syntax error: the plain parser rejects as well *)
+| HHookErr (st : St)         (* a hook returned an error *)
 | HOutOfFuel.
 Arguments HOk {Tok St}. Arguments HReject {Tok St}. Arguments HHookErr {Tok St}. Arguments HOutOfFuel {Tok St}.
 
@@ -17,9 +19,9 @@ Section HookParser.
   Variables Tok St : Type.
   Variable kind : Tok -> N.
   Variable eof_tok : Tok.                       (* LLk pads with Token{Type: ItemEOF} *)
-  (* hooks of alternative i of rule s; None = the hook returned an error; an absent hook is the identity *)
-  Variable hstart hend : N -> nat -> St -> option St.
-  Variable helem : N -> nat -> elem -> Tok -> St -> option St.   (* element, token current BEFORE it was consumed *)
+  (* hooks of alternative i of rule s; (st', false) = the hook returned an error; an absent hook is (st, true) *)
+  Variable hstart hend : N -> nat -> St -> St * bool.
+  Variable helem : N -> nat -> elem -> Tok -> St -> St * bool.   (* element, token current BEFORE it was consumed *)
 
   Definition hcur (ts : list Tok) : Tok := match ts with [] => eof_tok | t :: _ => t end.
 
@@ -33,14 +35,14 @@ Section HookParser.
           let tkn := hcur ts in
           let after :=
             match e with
-            | T t => if N.eqb (kind tkn) t then HOk (tl ts) st else HReject
+            | T t => if N.eqb (kind tkn) t then HOk (tl ts) st else HReject st
             | NT s' => rec s' ts st
             end in
           match after with
           | HOk ts' st' =>
               match helem s i e tkn st' with
-              | Some st'' => hexpect_elems s i es' ts' st''
-              | None => HHookErr
+              | (st'', true) => hexpect_elems s i es' ts' st''
+              | (st'', false) => HHookErr st''
               end
           | r => r
           end
@@ -48,21 +50,21 @@ Section HookParser.
 
     Definition hexpect (s : N) (i : nat) (a : alt) (ts : list Tok) (st : St) : hres Tok St :=
       match hstart s i st with
-      | None => HHookErr
-      | Some st1 =>
+      | (st1, false) => HHookErr st1
+      | (st1, true) =>
           match hexpect_elems s i a ts st1 with
-          | HOk ts' st2 => match hend s i st2 with Some st3 => HOk ts' st3 | None => HHookErr end
+          | HOk ts' st2 => match hend s i st2 with (st3, true) => HOk ts' st3 | (st3, false) => HHookErr st3 end
           | r => r
           end
       end.
 
     Fixpoint halts (s : N) (i : nat) (als : list alt) (ts : list Tok) (st : St) : hres Tok St :=
       match als with
-      | [] => HReject
+      | [] => HReject st
       | a :: rest =>
           match a with
           | [] => HOk ts st                         (* empty clause: no hook runs *)
-          | NT _ :: _ => HReject
+          | NT _ :: _ => HReject st
           | T t :: _ => if N.eqb (kind (hcur ts)) t then hexpect s i a ts st else halts s (S i) rest ts st
           end
       end.
@@ -76,7 +78,11 @@ Section HookParser.
 
   Definition hparse (start : N) (eof : N) (ts : list Tok) (st : St) : hres Tok St :=
     match hconsume (fuel_for (map kind ts)) start ts st with
-    | HOk rest st' => if N.eqb (kind (hcur rest)) eof then HOk rest st' else HReject
+    | HOk rest st' => if N.eqb (kind (hcur rest)) eof then HOk rest st' else HReject st'
     | r => r
     end.
+
+  (* the state reached, whatever the outcome *)
+  Definition final_state (r : hres Tok St) (dflt : St) : St :=
+    match r with HOk _ st => st | HReject st => st | HHookErr st => st | HOutOfFuel => dflt end.
 End HookParser.
